@@ -12,6 +12,8 @@ open ALV.Driver.C04 (getMem varJson atomJson gainJson errJson)
   entry "call":
     num, den : [[power, coefficient], …]   raw pairs of `ZFilter(num, den)`
     mem (optional, as in C04), zero : q, xs : [q …]
+  entry "expr":
+    tree : ["z",k] | ["c",q] | ["s",[q…]] | ["neg",t] | ["add"|"sub"|"mul"|"div", l, r]   (+ mem, zero, xs)
   payload: {"model": {"err":kind}
                    | {"out":[…], "ir":TIR, "b":[coef…], "a":[coef…], "gainpath":bool,
                       "num0":[[k,coef]…], "den0":[…]  (the filter object's polynomials),
@@ -64,6 +66,47 @@ def firstZero (l : List Rat) : Option Nat :=
     | x :: xs => if x = 0 then some i else go (i + 1) xs
   go 0 l
 
+/-- the model observation of `filt(xs, memory, zero)` for a filter object with polynomials `n0`, `d0` -/
+def callJson (n0 d0 : Terms (Coef Rat)) (mem : Mem Rat) (zero : Rat) (xs : List Rat) : Json :=
+  match callTV n0 d0 mem zero xs with
+  | .error e => errJson e
+  | .ok (out, its) =>
+    -- the coefficients the loop is generated from (after the variable-gain rewriting)
+    let gp := (coefAt d0 0).isStream
+    let nd : Terms (Coef Rat) × Terms (Coef Rat) :=
+      if gp then
+        match normalise (gainPath n0 d0).1 (gainPath n0 d0).2 with
+        | .ok r => r
+        | .error _ => (n0, d0)
+      else (n0, d0)
+    let a := dense nd.2
+    let b := dense nd.1
+    Json.mkObj [("out", rats out), ("ir", tirJson (compileTV b a zero)),
+                ("b", arr coefJson b), ("a", arr coefJson a), ("gainpath", Json.bool gp),
+                ("num0", pairsJson n0), ("den0", pairsJson d0),
+                ("bpos", posJson 0 b its.b), ("apos", posJson 1 a.tail its.a),
+                ("a0zero", match coefAt d0 0 with
+                           | .strm g => optJson natToJson (firstZero g)
+                           | .const _ => Json.null)]
+
+/-- the specification on the coefficient sequences `num`, `den` (dense lists from delay 0) -/
+def specJson (n0 d0 : Terms (Coef Rat)) (mem : Mem Rat) (zero : Rat) (xs : List Rat) : Json :=
+  match specCallTV n0 d0 mem zero xs with
+  | .error e => errJson e
+  | .ok out => Json.mkObj [("out", rats out)]
+
+partial def getTree (j : Json) : Except String (Tree Rat) := do
+  match j with
+  | Json.arr [Json.str "z", k] => pure (.z (← getNat k))
+  | Json.arr [Json.str "c", v] => pure (.c (← getRat v))
+  | Json.arr [Json.str "s", v] => pure (.s (← getList getRat v))
+  | Json.arr [Json.str "neg", t] => pure (.neg (← getTree t))
+  | Json.arr [Json.str "add", l, r] => pure (.add (← getTree l) (← getTree r))
+  | Json.arr [Json.str "sub", l, r] => pure (.sub (← getTree l) (← getTree r))
+  | Json.arr [Json.str "mul", l, r] => pure (.mul (← getTree l) (← getTree r))
+  | Json.arr [Json.str "div", l, r] => pure (.div (← getTree l) (← getTree r))
+  | _ => throw s!"bad tree {j.compress}"
+
 def handle (entry : String) (j : Json) : Except String Json := do
   match entry with
   | "call" =>
@@ -75,32 +118,24 @@ def handle (entry : String) (j : Json) : Except String Json := do
     let model : Json :=
       match normalise (mkPoly num) (mkPoly den) with
       | .error e => errJson e
-      | .ok (n0, d0) =>
-        match callTV n0 d0 mem zero xs with
-        | .error e => errJson e
-        | .ok (out, its) =>
-          -- the coefficients the loop is generated from (after the variable-gain rewriting)
-          let gp := (coefAt d0 0).isStream
-          let nd : Terms (Coef Rat) × Terms (Coef Rat) :=
-            if gp then
-              match normalise (gainPath n0 d0).1 (gainPath n0 d0).2 with
-              | .ok r => r
-              | .error _ => (n0, d0)
-            else (n0, d0)
-          let a := dense nd.2
-          let b := dense nd.1
-          Json.mkObj [("out", rats out), ("ir", tirJson (compileTV b a zero)),
-                      ("b", arr coefJson b), ("a", arr coefJson a), ("gainpath", Json.bool gp),
-                      ("num0", pairsJson n0), ("den0", pairsJson d0),
-                      ("bpos", posJson 0 b its.b), ("apos", posJson 1 a.tail its.a),
-                      ("a0zero", match coefAt d0 0 with
-                                 | .strm g => optJson natToJson (firstZero g)
-                                 | .const _ => Json.null)]
+      | .ok (n0, d0) => callJson n0 d0 mem zero xs
     let spec : Json :=
       match specCallTV num den mem zero xs with
       | .error e => errJson e
       | .ok out => Json.mkObj [("out", rats out)]
     pure <| Json.mkObj [("model", model), ("spec", spec)]
+  | "expr" =>
+    -- the filter is built by ZFilter / Poly arithmetic (C07 model at Stream coefficients); the
+    -- specification is the time-varying difference equation on the resulting coefficient sequences
+    let tree ← getTree (← field j "tree")
+    let mem ← getMem j
+    let zero ← getRat (← field j "zero")
+    let xs ← getList getRat (← field j "xs")
+    match evalTree tree with
+    | .error e => pure <| Json.mkObj [("model", errJson e), ("spec", errJson e), ("stage", Json.str "init")]
+    | .ok (.num _) => throw "expr: the tree evaluates to a number, not to a filter"
+    | .ok (.filt f) =>
+      pure <| Json.mkObj [("model", callJson f.num f.den mem zero xs), ("spec", specJson f.num f.den mem zero xs)]
   | _ => throw s!"C06: unknown entry {entry}"
 
 end ALV.Driver.C06
